@@ -953,10 +953,13 @@ def run(ctx: Ctx):
             for f in sorted(corpus.glob("*.rnx")):
                 text = f.read_text()
                 fmt = 2 if f.name.startswith("rinex2") else 3
-                case = {"corpus": f.name}
-                ctx.case(case)
-                ctx.count("corpus")
-                one_text(ctx, drv, wd, fmt, text, None, case)
+                rates = [None] + [float(x.split("=")[1]) for x in f.name.split(".rate")[1:2] and [f.name[f.name.index("rate="):].rsplit(".", 1)[0]]]
+                for rate in rates:
+                    case = {"corpus": f.name, "rate": rate}
+                    ctx.case(case)
+                    ctx.count("corpus")
+                    one_text(ctx, drv, wd, fmt, text, rate, case)
+                    corpus_facts(ctx, wd, f.name, fmt, text, rate)
         for fmt, name in ((3, "rinex3_obs"), (2, "rinex2_obs")):
             ex = common.REPO / "tests" / "parsers" / "example_files" / name
             if ex.exists():
@@ -1042,6 +1045,18 @@ def convert_unit_probe(ctx: Ctx, wd: Workdir, m, text: str, case):
                             f"row {i} ({systems[i]}) type {t}: {a} became {b} with convert_unit=True", {**case, "file_text": text})
                 return
     ctx.count("convert_unit probes")
+
+
+def corpus_facts(ctx: Ctx, wd: Workdir, name: str, fmt: int, text: str, rate):
+    """facts of the corpus files read off the files themselves (the minimised past defects)"""
+    p, err, _ = run_impl(wd, fmt, text, rate)
+    rows = None if p is None else len(p.as_dict().get("time", []))
+    want = {("rinex2_blank_line_and_single_continuation.rnx", None): 13,
+            ("rinex3_tenth_second_epochs.rate=0.1.rnx", None): 4,
+            ("rinex3_tenth_second_epochs.rate=0.1.rnx", 0.1): 3}.get((name, rate))
+    if want is not None and rows != want:
+        ctx.violate(f"corpus:{name}:rows", f"{name} (rate {rate}): {rows} rows parsed ({err}), the file has {want} records on the grid",
+                    {"corpus": name, "rate": rate, "file_text": text})
 
 
 def regrid(rng, m, rate):
